@@ -2237,12 +2237,16 @@ func freeServiceVirtualIP(
 	// ... or if a sidecar proxy for this service (or a connect-native instance)
 	// still exists: those instances advertise the virtual IP in their tagged
 	// addresses even when no instance is registered under the service's own name.
-	if remainingConnect, err := tx.First(tableServices, indexConnect, q); err == nil {
-		if remainingConnect != nil {
-			return nil
+	// (Imported services keep the previous rule: the virtual IP of a peered
+	// service follows the instances imported under its own name.)
+	if psn.Peer == "" {
+		if remainingConnect, err := tx.First(tableServices, indexConnect, q); err == nil {
+			if remainingConnect != nil {
+				return nil
+			}
+		} else {
+			return fmt.Errorf("failed connect service lookup for %q: %s", psn.ServiceName.Name, err)
 		}
-	} else {
-		return fmt.Errorf("failed connect service lookup for %q: %s", psn.ServiceName.Name, err)
 	}
 
 	// Don't deregister the virtual IP if at least one resolver/router/splitter config entry still
